@@ -458,6 +458,337 @@ class SmallACStream(UnifyStream):
                    "target": dumps(expr_to_sx(tgt)), "cands": ["x", "y"]}
 
 
+# {{{ completeness under injective renamings INTO the pattern's own names
+
+def _S(*ops):
+    return p.Sum(tuple(ops))
+
+
+def _P(*ops):
+    return p.Product(tuple(ops))
+
+
+def _renaming_templates():
+    """small patterns whose sums / products carry compound operands that SHARE variables (the
+    same operand shape on different variables, and another occurrence that pins the pairing):
+    (number of variables, builder).  f, g, h, u are symbols of the pattern (never renamed unless
+    the candidate set names them)."""
+    f, g, h, u = (p.Variable(v) for v in "fghu")
+    lt = p.Comparison
+    return [
+        (2, lambda a, b: _S(f(a), f(b), g(a))),
+        (2, lambda a, b: _S(_P(a, f(a)), _P(b, f(b)))),
+        (2, lambda a, b: _P(f(a), f(b), g(a))),
+        (2, lambda a, b: _P(_S(a, f(a)), _S(b, f(b)))),
+        (2, lambda a, b: _S(f(a), f(b), a)),
+        (2, lambda a, b: _P(b, f(a), f(b))),
+        (2, lambda a, b: _S(f(a, b), f(b, a), g(a))),
+        (2, lambda a, b: _S(f(a), f(b), g(a), u)),
+        (2, lambda a, b: _S(f(g(a)), f(g(b)), g(a))),
+        (2, lambda a, b: _S(p.Power(a, 2), p.Power(b, 2), p.Power(a, 3))),
+        (2, lambda a, b: _S(p.Subscript(u, (a, b)), p.Subscript(u, (b, a)), p.Subscript(u, a))),
+        (2, lambda a, b: _P(p.Quotient(a, b), p.Quotient(b, a), p.Quotient(a, 2))),
+        # plain variables as operands next to the compound ones
+        (2, lambda a, b: _S(a, b, f(a))),
+        (2, lambda a, b: _P(a, b, g(b))),
+        (2, lambda a, b: _S(a, b, _P(a, f(b)), _P(b, g(a)))),
+        (2, lambda a, b: h(_S(a, b, u), b)),
+        # nested AC nodes (the other operator, and the same operator left unflattened)
+        (2, lambda a, b: _P(_S(a, f(b)), _S(b, f(a)), g(a))),
+        (2, lambda a, b: _S(_P(f(a), g(b)), _P(f(b), g(a)), f(a))),
+        (2, lambda a, b: _S(_S(f(a), g(b)), _S(f(b), g(a)), a)),
+        (2, lambda a, b: _P(_P(f(a), b), _P(f(b), a), g(b))),
+        (2, lambda a, b: _S(_P(a, _S(f(a), f(b), g(a))), _P(b, _S(f(b), f(a), g(b))))),
+        # the pinning occurrence lies OUTSIDE the sum / product
+        (2, lambda a, b: h(_S(f(a), f(b)), a)),
+        (2, lambda a, b: h(a, _P(f(a), f(b)))),
+        (2, lambda a, b: p.Quotient(_P(f(a), f(b)), g(a))),
+        (2, lambda a, b: p.Power(_S(f(a), f(b)), g(b))),
+        (2, lambda a, b: lt(_S(f(a), f(b)), "<", g(a))),
+        (2, lambda a, b: p.If(lt(_S(f(a), f(b)), "<", a), _P(g(a), g(b), a), b)),
+        (2, lambda a, b: p.Subscript(u, (_S(f(a), f(b)), b))),
+        # function symbols as the renamed variables
+        (2, lambda a, b: _S(a(u), b(u), h(a(u)))),
+        (2, lambda a, b: _P(a(u, b(u)), b(u, a(u)), a(u))),
+        # three variables
+        (3, lambda a, b, c: _S(f(a, b), f(b, c), f(c, a), g(a))),
+        (3, lambda a, b, c: _S(_P(a, f(b)), _P(b, f(c)), _P(c, f(a)))),
+        (3, lambda a, b, c: _P(f(a), f(b), f(c), g(a, b))),
+        (3, lambda a, b, c: _S(f(a), f(b), g(a, c), c)),
+        (3, lambda a, b, c: _S(a, b, c, f(a, b))),
+        (3, lambda a, b, c: _S(f(_S(a, b)), f(_S(b, c)), g(a))),
+        (3, lambda a, b, c: h(_S(_P(a, u), _P(b, g(c))), p.Quotient(g(a), g(b)))),
+        (3, lambda a, b, c: _P(_S(a, 2), _S(b, 2), p.Power(h(a), c))),
+        (3, lambda a, b, c: p.If(lt(_S(f(a), f(b)), "<", c), _P(g(a), g(b), a),
+                                 _S(p.Subscript(u, (a, b)), p.Subscript(u, (b, a)), b))),
+    ]
+
+
+class _RenGen:
+    """random patterns of the same class: an ORBIT (one compound operand shape instantiated on
+    different variables) plus pinning operands under a sum / product, possibly inside a context"""
+    FNS = ["f", "g", "h"]
+    SYMS = ["u", "v"]
+
+    def __init__(self, rng, cands):
+        self.r = rng
+        self.cands = cands
+
+    def leaf(self, leaves):
+        r = self.r
+        k = r.random()
+        if k < 0.8:
+            return p.Variable(r.choice(leaves))
+        if k < 0.9:
+            return p.Variable(r.choice(self.SYMS))
+        return r.choice([2, 3, 5, -1])
+
+    def arg(self, d, leaves):
+        if d <= 0 or self.r.random() < 0.6:
+            return self.leaf(leaves)
+        return self.compound(d - 1, leaves)
+
+    def compound(self, d, leaves):
+        r = self.r
+        k = r.choice(["call1", "call1", "call1", "call2", "prodv", "sumv", "pow", "sub", "quot",
+                      "ac", "ac"])
+        fn = p.Variable(r.choice(self.FNS))
+        if k == "call1":
+            return fn(self.arg(d, leaves))
+        if k == "call2":
+            return fn(self.arg(d, leaves), self.arg(d, leaves))
+        if k == "prodv":
+            return _P(p.Variable(r.choice(leaves)), fn(self.arg(d, leaves)))
+        if k == "sumv":
+            return _S(self.arg(d, leaves), r.choice([2, 3, fn(self.arg(d, leaves))]))
+        if k == "pow":
+            return p.Power(self.arg(d, leaves), r.choice([2, 3, self.arg(d, leaves)]))
+        if k == "sub":
+            agg = p.Variable(r.choice(self.SYMS))
+            if r.random() < 0.5:
+                return p.Subscript(agg, (self.arg(d, leaves), self.arg(d, leaves)))
+            return p.Subscript(agg, self.arg(d, leaves))
+        if k == "quot":
+            return p.Quotient(self.arg(d, leaves), self.arg(d, leaves))
+        cls = r.choice([p.Sum, p.Product])
+        return cls(tuple(self.arg(d, leaves) for _ in range(r.choice([2, 2, 3]))))
+
+    def pattern(self):
+        r = self.r
+        cands = self.cands
+        nh = r.choice([1, 1, 2]) if len(cands) > 1 else 1
+        holes = [f"_{i}" for i in range(nh)]
+        shape = expr_to_sx(self.compound(r.choice([0, 1, 1]), holes))
+        if not acnorm.variables(shape) & set(holes):
+            shape = expr_to_sx(p.Variable("f")(*[p.Variable(hh) for hh in holes]))
+        ops, seen = [], set()
+        for _ in range(r.choice([2, 2, 3])):
+            img = r.sample(cands, nh)
+            inst = acnorm.inst(shape, {hh: [A("Var"), v] for hh, v in zip(holes, img)})
+            if dumps(inst) not in seen:
+                seen.add(dumps(inst))
+                ops.append(sx_to_expr(inst))
+        for _ in range(r.choice([0, 1, 1, 2])):
+            k = r.random()
+            if k < 0.3:
+                ops.append(p.Variable(r.choice(cands)))
+            elif k < 0.4:
+                ops.append(p.Variable(r.choice(self.SYMS)))
+            else:
+                ops.append(self.compound(r.choice([0, 1]), cands))
+        r.shuffle(ops)
+        if len(ops) < 2:
+            ops.append(self.compound(0, cands))
+        cls = r.choice([p.Sum, p.Sum, p.Product])
+        top = cls(tuple(ops[:5]))
+        k = r.random()
+        h = p.Variable("h")
+        if k < 0.45:
+            return top
+        if k < 0.55:
+            return h(top, self.leaf(cands)) if r.random() < 0.5 else h(self.leaf(cands), top)
+        if k < 0.63:
+            return p.Quotient(top, self.compound(0, cands))
+        if k < 0.70:
+            return p.Comparison(top, r.choice(CMP), self.arg(1, cands))
+        if k < 0.76:
+            return p.If(p.Comparison(top, r.choice(CMP), self.arg(1, cands)), self.arg(1, cands),
+                        self.arg(1, cands))
+        other = p.Product if cls is p.Sum else p.Sum
+        outer = r.choice([other, other, cls])
+        more = [top, self.arg(1, cands)] + ([self.compound(0, cands)] if r.random() < 0.5 else [])
+        r.shuffle(more)
+        return outer(tuple(more))
+
+
+def renaming_class(pvars, ren):
+    """how the renaming meets the pattern's own names"""
+    moved = {v: w for v, w in ren.items() if v != w}
+    if not moved:
+        return "identity"
+    if set(moved.values()) == set(moved):
+        return "permutes"
+    if any(w in pvars for w in moved.values()):
+        return "overlaps"
+    return "fresh"
+
+
+def renaming_payload(pat_sx, cands, ren):
+    """None unless `ren` (identity elsewhere) is injective on the variables of the pattern and
+    moves declared variables only"""
+    pvars = acnorm.variables(pat_sx)
+    ren = {v: w for v, w in ren.items() if v in pvars}
+    if any(v not in cands for v in ren):
+        return None
+    img = [ren.get(v, v) for v in sorted(pvars)]
+    if len(set(img)) != len(img):
+        return None
+    tgt = acnorm.inst(pat_sx, {v: [A("Var"), w] for v, w in ren.items()})
+    return {"kind": "renaming", "rclass": renaming_class(pvars, ren), "pattern": dumps(pat_sx),
+            "target": dumps(tgt), "cands": sorted(cands), "ren": dict(sorted(ren.items()))}
+
+
+class RenamingStream(UnifyStream):
+    """completeness clause: the target is the pattern under an injective renaming of its variables
+    drawn from a pool that CONTAINS the pattern's own variables — every permutation of them, partial
+    overlaps, fresh names — for sums / products whose compound operands share variables (so that an
+    operand of the pattern can occur verbatim in the target and still have to be paired with a
+    different operand).  `unify_complete_renaming` makes no disjointness assumption, so the model
+    is run on every case as well (records compared in yield order)."""
+    name = "unifier-renaming"
+    FRESH = ["x", "y", "z", "w"]
+
+    @staticmethod
+    def injections(dom, pool):
+        for img in itertools.permutations(pool, len(dom)):
+            yield dict(zip(dom, img))
+
+    def cases(self, rng, tier):
+        quick = tier == "quick"
+        seen = set()
+
+        def emit(pat_sx, cands, ren):
+            pl = renaming_payload(pat_sx, cands, ren)
+            if pl is None:
+                return None
+            key = pl["pattern"] + "|" + pl["target"] + "|" + ",".join(pl["cands"])
+            if key in seen or not within_budget(pl):
+                return None
+            seen.add(key)
+            return pl
+
+        # 1. exhaustive: every template x every non-empty set of declared variables x EVERY
+        #    injective renaming into (declared variables + as many fresh names)
+        names = ["a", "b", "c"]
+        for nv, build in _renaming_templates():
+            vs = names[:nv]
+            pat_sx = expr_to_sx(build(*[p.Variable(v) for v in vs]))
+            for k in range(nv, 0, -1):
+                for dom in itertools.combinations(vs, k):
+                    pool = list(dom) + self.FRESH[:k]
+                    for ren in self.injections(dom, pool):
+                        pl = emit(pat_sx, list(dom), ren)
+                        if pl is not None:
+                            yield pl
+        # 2. random patterns of the class; all permutations of the declared variables, plus
+        #    partial overlaps / fresh names / names of symbols from the stream's rng
+        n = 110 if quick else 2500
+        universe = ["a", "b", "c", "d", "x", "y", "z"]
+        for i in range(n):
+            k = rng.choice([2, 2, 3, 3] if quick else [2, 3, 3, 4])
+            cvars = rng.sample(universe, k)
+            pat = _RenGen(rng, cvars).pattern()
+            pat_sx = expr_to_sx(pat)
+            pvars = acnorm.variables(pat_sx)
+            cands = [v for v in cvars if v in pvars]
+            if rng.random() < 0.15:      # symbols (function names among them) declared as well
+                cands += [v for v in sorted(pvars - set(cands)) if rng.random() < 0.6]
+            if len(cands) > 1 and rng.random() < 0.15:   # one variable stays a symbol
+                cands.remove(rng.choice(cands))
+            if not cands:
+                continue
+            declared = list(cands)
+            if rng.random() < 0.1:       # declared, absent from the pattern
+                declared.append(rng.choice([v for v in universe + ["q"] if v not in pvars]))
+            fresh = [v for v in universe + ["p", "q", "r", "s", "f", "g", "h", "u", "v"]
+                     if v not in pvars]
+            rens = []
+            if len(cands) <= 4:
+                rens.extend(self.injections(cands, cands))
+            for _ in range(8 if quick else 12):
+                pool = cands + rng.sample(fresh, rng.randint(1, len(cands)))
+                rens.append(dict(zip(cands, rng.sample(pool, len(cands)))))
+            rens.append(dict(zip(cands, rng.sample(fresh, len(cands)))))
+            for ren in rens:
+                pl = emit(pat_sx, declared, ren)
+                if pl is not None:
+                    yield pl
+
+    def oracle(self, pl):
+        try:
+            recs = run_unifier(pl)
+        except RecursionError:
+            raise
+        except Exception as ex:
+            return Failure("unifier-raises", f"{type(ex).__name__}: {str(ex)[:200]}", pl)
+        f = check_records(pl, recs)
+        if f is not None:
+            return f
+        if recs:
+            return None
+        # the completeness clause speaks only if the target IS the renamed pattern
+        pat_sx = loads(pl["pattern"])
+        ok = renaming_payload(pat_sx, pl["cands"], pl.get("ren", {}))
+        if ok is None or ok["target"] != pl["target"] or set(ok["ren"]) != set(pl.get("ren", {})):
+            return None
+        moved = ", ".join(f"{v}->{w}" for v, w in ok["ren"].items() if v != w) or "identity"
+        return Failure(f"unifier-renaming-incomplete:{ok['rclass']}",
+                       f"no record although the target {sx_to_expr(loads(pl['target']))} is the pattern "
+                       f"{sx_to_expr(pat_sx)} under the injective renaming {moved} "
+                       f"(declared: {pl['cands']})", pl)
+
+    def shrink(self, pl):
+        pat_sx = loads(pl["pattern"])
+        ren = pl.get("ren", {})
+
+        def rebuilt(pat, cands, ren):
+            new = renaming_payload(pat, cands, ren)
+            if new is not None and (new["pattern"], new["target"], new["cands"]) != \
+                    (pl["pattern"], pl["target"], pl["cands"]):
+                return new
+            return None
+        for s in sx_shrinks(pat_sx):
+            new = rebuilt(s, pl["cands"], ren)
+            if new is not None:
+                yield new
+        for v in ren:                      # one variable less is moved / declared
+            if ren[v] != v:
+                new = rebuilt(pat_sx, pl["cands"], {**ren, v: v})
+                if new is not None:
+                    yield new
+        pvars = acnorm.variables(pat_sx)
+        for c in pl["cands"]:
+            if ren.get(c, c) == c:
+                new = rebuilt(pat_sx, [d for d in pl["cands"] if d != c],
+                              {v: w for v, w in ren.items() if v != c})
+                if new is not None:
+                    yield new
+        for v in ren:                      # a fresh image instead of one of the pattern's names
+            if ren[v] in pvars and ren[v] != v:
+                fresh = next(w for w in self.FRESH + ["p", "q", "r", "s"]
+                             if w not in pvars and w not in ren.values())
+                new = rebuilt(pat_sx, pl["cands"], {**ren, v: fresh})
+                if new is not None:
+                    yield new
+
+    def stats(self, pl, mo, io, acc):
+        super().stats(pl, mo, io, acc)
+        k = acc.setdefault("renamings", {})
+        k[pl["rclass"]] = k.get(pl["rclass"], 0) + 1
+
+# }}}
+
+
 class TableStream(Stream):
     """T-gen tie: the compiled TABLE INTERPRETER (lean/PV/Model/UnifyTable.lean) run on the table
     regenerated from the source of unifier.py on this run, against the real unifier: records in
@@ -883,7 +1214,7 @@ PROP = Prop(
             "(replacement_multiset_overwrite_cex, known finding)",
     },
     streams=[UnifyStream(), SmallACStream(), TableStream(), MatchpyStream(), ConvertStream(), FromStream(),
-             OrderStream(), ReplacementStream()],
+             OrderStream(), ReplacementStream(), RenamingStream()],
     probes=[probes],
     extractors=[extract, extract_unifier],
     trusted_base=[
@@ -911,7 +1242,7 @@ PROP = Prop(
         "results are checked by the independent oracles only (matchpy's matcher is an external "
         "runtime)",
     ],
-    level_text='The model of the unifier is proved to be what the CURRENT SOURCE of pymbolic/mapper/unifier.py prescribes: every function of the module (unify_map, UnificationRecord, unify_many, unification_record_from_equation, all map_* handlers, map_commut_assoc with match_children / match_plain_var_candidates / subsets / partitions) is re-read statement by statement on every run into a table, and for all patterns of the model, all targets and all records one dispatched call of the table interpreter on that table equals unifyE (unifyE_eq_table_current; unifyE is the unique solution: unifyE_unique_current); the compiled interpreter on the regenerated table is compared with the real unifier on 850 cases per run. Lean theorems about a model of UnidirectionalUnifier (unify_map, records with lmap/rmap, all structural rules, map_commut_assoc with candidate pairing and leftover partitioning), unbounded in tree size and arity: on ALL inputs every record binds only declared variables and each of them once; on all inputs outside five explicitly excluded shapes (decidable guards) every record binds every pattern variable and instantiates the pattern to the target up to reordering / regrouping of sums and products (an inductive congruence with a proved-sound normal-form decision procedure). Each excluded shape is proved to violate the law by a concrete witness and is a known finding replayed on the code. Completeness: if the target is the pattern under a renaming that is injective on its variables and fixes the non-candidates, a record is returned and one of the records is the renaming (full strength on the fragment, including degenerate sums). AC-equal trees have equal values in every field of characteristic 0. The model is tied to the code by exact comparison of the record lists (order, binding order) and of the per-record verdicts (Lean acEquiv vs an independent Python AC normaliser) on ~4k cases per quick run; "guards imply all verdicts true" and renaming completeness are also checked on the real records. Matchpy bridge: a Lean model of the term classes of the bridge (flag / arity table regenerated from the live classes on every run and compared by `decide`), of the constructor of matchpy (flatten, sort with the list.sort of CPython on the non-transitive `<`), of both mappers and of ToFromReplacement; theorems: exactly which trees convert; the conversion round trip returns the tree unchanged on the decidable fragment `bridgeNormal`, and for EVERY convertible wildcard-free tree returns a tree equal up to operand order of the operators declared commutative, merging of nested applications of operators declared associative and tuple-writing of indices, with the same value in every field of characteristic 0; every class declared commutative / associative stands for an n-ary node whose evalC value is invariant under permutation / regrouping (no class is declared one-identity), and the constructor of matchpy preserves the value; ToFromReplacement hands every captured operand to the callback with its multiplicity when the images of the captured keys are pairwise different, which is proved for every Multiset of pairwise different well-formed name-free terms, i.e. for everything captured from a converted subject (fromM reflects ==). Tied to the code by ~9k structural comparisons per quick run (terms printed structurally). match / match_anywhere / replace_all results (the matcher of matchpy) are checked by independent oracles only.',
+    level_text='The model of the unifier is proved to be what the CURRENT SOURCE of pymbolic/mapper/unifier.py prescribes: every function of the module (unify_map, UnificationRecord, unify_many, unification_record_from_equation, all map_* handlers, map_commut_assoc with match_children / match_plain_var_candidates / subsets / partitions) is re-read statement by statement on every run into a table, and for all patterns of the model, all targets and all records one dispatched call of the table interpreter on that table equals unifyE (unifyE_eq_table_current; unifyE is the unique solution: unifyE_unique_current); the compiled interpreter on the regenerated table is compared with the real unifier on 850 cases per run. Lean theorems about a model of UnidirectionalUnifier (unify_map, records with lmap/rmap, all structural rules, map_commut_assoc with candidate pairing and leftover partitioning), unbounded in tree size and arity: on ALL inputs every record binds only declared variables and each of them once; on all inputs outside five explicitly excluded shapes (decidable guards) every record binds every pattern variable and instantiates the pattern to the target up to reordering / regrouping of sums and products (an inductive congruence with a proved-sound normal-form decision procedure). Each excluded shape is proved to violate the law by a concrete witness and is a known finding replayed on the code. Completeness: if the target is the pattern under a renaming that is injective on its variables and fixes the non-candidates, a record is returned and one of the records is the renaming (full strength on the fragment, including degenerate sums). AC-equal trees have equal values in every field of characteristic 0. The model is tied to the code by exact comparison of the record lists (order, binding order) and of the per-record verdicts (Lean acEquiv vs an independent Python AC normaliser) on ~4k cases per quick run; "guards imply all verdicts true" and renaming completeness are also checked on the real records; the completeness clause is additionally run (model and oracle) on renamings INTO the pattern\'s own names - every permutation of its variables, partial overlaps, fresh names, exhaustive over all injective renamings for 39 small patterns whose sums / products carry compound operands that share variables (stream unifier-renaming, ~2.8k cases). Matchpy bridge: a Lean model of the term classes of the bridge (flag / arity table regenerated from the live classes on every run and compared by `decide`), of the constructor of matchpy (flatten, sort with the list.sort of CPython on the non-transitive `<`), of both mappers and of ToFromReplacement; theorems: exactly which trees convert; the conversion round trip returns the tree unchanged on the decidable fragment `bridgeNormal`, and for EVERY convertible wildcard-free tree returns a tree equal up to operand order of the operators declared commutative, merging of nested applications of operators declared associative and tuple-writing of indices, with the same value in every field of characteristic 0; every class declared commutative / associative stands for an n-ary node whose evalC value is invariant under permutation / regrouping (no class is declared one-identity), and the constructor of matchpy preserves the value; ToFromReplacement hands every captured operand to the callback with its multiplicity when the images of the captured keys are pairwise different, which is proved for every Multiset of pairwise different well-formed name-free terms, i.e. for everything captured from a converted subject (fromM reflects ==). Tied to the code by ~9k structural comparisons per quick run (terms printed structurally). match / match_anywhere / replace_all results (the matcher of matchpy) are checked by independent oracles only.',
     level_note='Trusted: Lean kernel; the harness; Expr.pyEq for Python ==; matchpy is an external runtime (its matcher is not modelled). The instantiation law is FALSE on the current tree in five shapes (empty leftover bound to 0/1, neutral leftover operands dropped, zero factor collapsing a product share, empty Sum/Product pattern resetting the records, 1-tuple subscript index unpacked) and for the bridge in three (nested associative operators flattened by matchpy; replace_all below call arguments / subscript indices splices operands; ToFromReplacement overwrites the count of Multiset keys that differ only in a variable_name): all eight are known findings with minimal inputs. Crashes are not counted as violations (match / match_anywhere raise on every star wildcard; Min/Max/bitwise/logical patterns raise in generate_permutations(range(n))).',
     technique='source of unifier.py re-read on every run into a statement-level table (T-gen) + Lean proof that the hand-written unifier model is the table interpreter run on that table (all arguments; unique solution of the dispatch equation) + Lean 4 mutual-induction soundness proof of the unifier model w.r.t. an inductive AC congruence + invariant-based refutations + differential correspondence (records and verdicts) + independent AC-normaliser oracles for the unifier and the matchpy bridge + regenerated class table (T-gen) and structural term correspondence for the bridge model',
     design_ref="DESIGN.md §4 C16",
